@@ -46,10 +46,13 @@ class NaiveRegionSorter:
     def process_page(self, image, page_layout: PageLayout):
         regions = []
 
+        if len(page_layout.regions) < 2:
+            return page_layout
+
         for region in page_layout.regions:
             regions.append(Region(region))
 
-        eps = image.shape[1] // self.width_denom
+        eps = max(image.shape[1] // self.width_denom, 1)
         order = NaiveRegionSorter.sort_regions(regions, eps)
 
         page_layout.regions = [page_layout.regions[idx] for idx in order]
